@@ -8,22 +8,7 @@ fuzz_target!(|data: &[u8]| {
     if data.is_empty() {
         return;
     }
-    let gens: Vec<ctv::run::Gen> = [
-        ctv::props::c01::gens(),
-        ctv::props::c04::gens(),
-        ctv::props::c05::gens(),
-        ctv::props::c06::gens(),
-        ctv::props::c12::gens(),
-        ctv::props::c13::gens(),
-        ctv::props::c14::gens(),
-        ctv::props::c02::gens(),
-        ctv::props::c15::gens(),
-        ctv::props::c07::gens(),
-    ]
-    .concat()
-    .into_iter()
-    .filter(|g| !g.name.ends_with("concrete") && g.name != "c04_short" && !g.name.starts_with("c13_name") && !g.name.starts_with("c13_icon") && !g.name.starts_with("c14_params") || g.name == "c14_params_random")
-    .collect();
+    let gens = ctv::props::fuzz_gens();
     let g = gens[data[0] as usize % gens.len()];
     let words: Vec<u32> = data[1..].chunks(4).map(|c| {
         let mut b = [0u8; 4];
